@@ -6,6 +6,8 @@
      the relay's goroutines saw; the observation is how the relay fared: 0 = every canary passed and
      the process was alive at the end, 1 = the process died, 2 = a canary failed (frozen), 3 = a
      handler panicked (recovered by net/http).
+   CScenPop: the same for the scenario that holds more than a thousand connections at once, plus the number
+     of connections of that topic in the relay's own listing at the end (= the model's membership).
    CApi: a history of access-API calls and websocket connects over a few bookings, with after every
      call its answer and the set of live connections the relay reports, and the same class. *)
 From Relay Require Import Base.Prelude Base.AList Model.ChanMap Model.HubFaults.
@@ -57,6 +59,7 @@ Inductive case :=
 | CChan (ops : list cop) (obs : list cobs)
         (final : option (list (N * option (list (N * N))) * list (N * N) * list N))
 | CScen (evs : list ev) (cls : N)
+| CScenPop (evs : list ev) (cls : N) (topic : N) (listed : N)   (* + how many connections of the crowded topic the relay lists at the end *)
 | CApi (allow_empty : bool) (aevs : list aev) (obs : list (aout * list N)) (cls : N).
 
 Definition case_ok (k : case) : bool :=
@@ -70,6 +73,11 @@ Definition case_ok (k : case) : bool :=
           list_eqb dumpc_eqb (dump_children s) dc && list_eqb pair_eqb (dump_pbc s) dp && list_eqb N.eqb (dump_closed s) dcl
       end
   | CScen evs cls => N.eqb (class_of (run hub_init evs)) cls
+  | CScenPop evs cls topic listed =>
+      match run hub_init evs with
+      | HOk h => N.eqb cls 0 && N.eqb (N.of_nat (length (members_of topic h))) listed
+      | o => N.eqb (class_of o) cls
+      end
   | CApi ae aevs obs cls =>
       prefix_eqb aobs_eqb (lower_obs ae lite_init aevs) obs &&
       N.eqb (class_of (run hub_init (lower_all ae lite_init aevs))) cls &&
@@ -87,7 +95,7 @@ Definition case_nontrivial (k : case) : bool :=
       let '(s, m) := crun_obs cm_init ops in
       (2 <=? length (filter (fun o => match o with Add p c ch => effective p c ch | _ => false end) ops))%nat &&
       (negb (Nat.eqb (length (closedl s)) 0) || existsb (fun ob => is_panic (fst (fst (fst ob)))) m)
-  | CScen evs _ => match run hub_init evs with HOk h => some_closed h | _ => true end
+  | CScen evs _ | CScenPop evs _ _ _ => match run hub_init evs with HOk h => some_closed h | _ => true end
   | CApi ae aevs _ _ => match run hub_init (lower_all ae lite_init aevs) with HOk h => some_closed h | _ => true end
   end.
 
